@@ -30,7 +30,7 @@ def main():
         patch = os.path.join(ROOT, 'seeded', a.patch, 'patch.diff')
     patch = os.path.abspath(patch)
     tmp = tempfile.mkdtemp(prefix='seeded_')
-    wt = os.path.join(tmp, 'repo')
+    wt = os.path.join(tmp, 'wt_' + os.path.basename(tmp))
     lean = os.path.join(tmp, 'lean')
     rc = 2
     try:
